@@ -237,9 +237,16 @@ def _uniform(col, rule="C14.R2"):
             "concatenation is applied to every column of the column list, own rows first", S.show(st[0].value)[:100] if st else "")
     sx = tctx(repo, "__add__")
     rets = sx.of_kind("return")
-    col.add(rule, "Table.__add__#on-a-copy", bool(rets) and all(
-        S.is_call_of(r.value, meth="_concatenate_table") and r.value[1][1] == S.mcall(S.SELF, "_copy")
-        and S.call_args(r.value, ("table",)) == (sx.P(0),) for r in rets),
+    COPY = S.mcall(S.SELF, "_copy")
+    joins = [ev.nid for ev in sx.of_kind("call") if S.is_call_of(ev.term, meth="_concatenate_table") and ev.term[1][1] == COPY
+             and S.call_args(ev.term, ("table",)) == (sx.P(0),)]
+
+    def _on_copy(r):
+        if S.is_call_of(r.value, meth="_concatenate_table") and r.value[1][1] == COPY and S.call_args(r.value, ("table",)) == (sx.P(0),):
+            return True
+        # ... or the copy itself, extended on the way (the in-place append hands its receiver back)
+        return r.value == COPY and bool(joins) and sx.cfg.must_pass(sx.cfg.ENTRY, r.nid, joins)
+    col.add(rule, "Table.__add__#on-a-copy", bool(rets) and all(_on_copy(r) for r in rets),
             sx.loc(sx.fn), "`+` concatenates onto a copy of the left table", "")
     sx = tctx(repo, "__len__")
     rets = sx.of_kind("return")
